@@ -3,6 +3,7 @@ package main
 import (
 	"fmt"
 	"go/token"
+	"go/types"
 	"strings"
 
 	"golang.org/x/tools/go/ssa"
@@ -14,6 +15,7 @@ const termexecPkg = "app/terminal/termexec"
 func init() {
 	register(&PropDef{ID: "C14", Title: "Pipeline tasks honour wait lists and never run after a failed prerequisite", Rules: rulesC14,
 		Explanation: "Decided (structural necessary conditions): R1 in the runner the body (Sandbox.Run) is dominated by the nil edge of waitForTasks, and on its non-nil edge the error is appended to the task's scope on every path (the refused task ends failed); R2 inside the wait loop every iteration that continues (back edge) has established: the name was found, that task's Wait() returned nil, and its error list is empty; the nil return is outside the loop; R3 NewTask arms the completion latch on every path, Task.Close releases it exactly once on every path, Task.Wait waits for it, runGo defers Close before anything can return, and Runner.Run starts the task goroutine on every path after a successful Create (and only then); R4 Create registers/returns a task only on the nil edge of validWaitList, and validWaitList returns an error for a name missing from the table; R5 after a task is entered in the table (or the manager's group is incremented) no path returns an error without undoing it; R6 the terminal loop runs one command at a time (synchronous call) and an iteration continues only if the command returned nil, otherwise the error is appended and the loop returns; R7 TaskManager.Wait waits for the manager's group on every path before it takes the table lock, then returns the accumulated task.Wait() errors; the task table is only touched under its lock. " +
+			"R8 every wait name pip:run produces carries the task namespace of the submitting scope (no 'absolute' spelling): that prefix is what keeps a nested submission from waiting for the task whose body it runs in, which would never finish. " +
 			"NOT decided: ordering and timing of really concurrent task bodies at run time; sandbox behaviour.",
 	})
 }
@@ -550,6 +552,91 @@ func rulesC14(c *Ctx) {
 			c.Floor("R7", n, 4)
 		}
 	}
+
+	// ---- R8 wait names are resolved inside the submitting namespace -----------------------------------
+	ruleWaitNamesNamespaced(c)
+}
+
+// ruleWaitNamesNamespaced (R8): pip:run turns --wait into task names by
+// prefixing each with the task namespace of the submitting scope.  That prefix
+// is what keeps a nested submission from naming its own ancestors (a task whose
+// body line is still waiting for the nested task to be accepted/finished): every
+// name the helper produces must carry the prefix.  An "absolute" spelling that
+// bypasses it lets a body wait for the task it runs in - both never finish.
+func ruleWaitNamesNamespaced(c *Ctx) {
+	run := c.P.Func("app/modules/pipelinem/pipcommands/pipc", "", "Run")
+	if run == nil {
+		c.Bad("R8", "pipc.Run", 0, "anchor not found")
+		return
+	}
+	n := 0
+	for _, ci := range Calls(run) {
+		if ci.Static == nil || ci.Static.Pkg != run.Pkg || ci.Static.Blocks == nil {
+			continue
+		}
+		res := ci.Static.Signature.Results()
+		if res.Len() < 1 {
+			continue
+		}
+		if sl, ok := res.At(0).Type().Underlying().(*types.Slice); !ok || !isStringy(sl.Elem()) {
+			continue
+		}
+		// which argument is the task namespace?
+		pidx := -1
+		for i := range ci.Common.Args {
+			for _, o := range Origins(ci.Arg(i), FlowOpts{}) {
+				if o.Kind == "call" && strings.Contains(o.Name, ").Task#") {
+					pidx = i
+				}
+			}
+		}
+		if pidx < 0 {
+			continue
+		}
+		F := ci.Static
+		prefix := F.Params[pidx]
+		n++
+		bad := ""
+		var pos token.Pos
+		apps := 0
+		for _, ac := range Calls(F) {
+			b, isB := ac.Common.Value.(*ssa.Builtin)
+			if !isB || b.Name() != "append" || len(ac.Common.Args) != 2 {
+				continue
+			}
+			if sl, ok := ac.Common.Args[0].Type().Underlying().(*types.Slice); !ok || !isStringy(sl.Elem()) {
+				continue
+			}
+			var elems []ssa.Value
+			if s2, ok := ac.Common.Args[1].(*ssa.Slice); ok {
+				elems = arrayElems(s2.X)
+			}
+			if len(elems) == 0 {
+				bad, pos = "names are appended in bulk; cannot see that each carries the namespace", ac.Pos()
+				continue
+			}
+			for _, e := range elems {
+				apps++
+				has := false
+				for _, part := range concatParts(e, 0) {
+					for _, o := range Origins(part, FlowOpts{}) {
+						if o.Val == ssa.Value(prefix) {
+							has = true
+						}
+					}
+				}
+				if !has {
+					bad, pos = "a wait name is produced without the task-namespace prefix", ac.Pos()
+				}
+			}
+		}
+		if apps == 0 && bad == "" {
+			bad = "the helper appends no names; cannot certify"
+		}
+		c.Check(bad == "", "R8", "wait names produced by "+fname(F)+" carry the task namespace", orPos(pos, F.Pos()), fmt.Sprintf("%d appended name(s), each prefix+name", apps),
+			bad+" — a nested submission can then name the task whose body it runs in (or any task outside its namespace): the nested task waits for its ancestor while the ancestor's body waits for the nested one, and neither ever finishes")
+	}
+	c.Floor("R8", n, 1)
 }
 
 func reachesBlock(from, to *ssa.BasicBlock) bool {
